@@ -389,6 +389,16 @@ def check_reentry_keeps_evolved_state(prog, ctx):
                   "raises / updates in place, falls back to its initial value while the restored refinement structures keep their depth"
                   % (src(s_.stmt), s_.attr))
     ctx.floor("C14.D8", n, 1, "initialisations of evolving state in init_adaptive_combi")
+    # the operation's own start-up (it empties the evaluation cache, the point count and the accumulators) belongs to a fresh start too: a
+    # run that re-enters with a given refinement must keep what the earlier run evaluated
+    for call in R.calls_in(iac.node):
+        f_ = call.func
+        if isinstance(f_, ast.Attribute) and f_.attr == "initialize" and R.self_attr(f_.value, iac.self_name) == "operation":
+            guards = [g for (g, gn) in R.dominating_guards(iac, R.cfg_node(iac, call), tm) if gn.kind == "test"]
+            ctx.check(fresh in guards, "C14.D8", R.key_of(iac, "fresh-start-only:operation.initialize"), iac.loc(call),
+                      "the operation is (re-)initialised only for a fresh start",
+                      "`%s` runs also when init_adaptive_combi re-enters with a given refinement container: the operation's evaluation cache and "
+                      "point count are emptied although the run continues" % src(call))
 
 
 def check_area_value_reset(prog, ctx, rule):
